@@ -34,7 +34,12 @@ MANIFEST = {
             'term for term, the last entry of the sequential result (field by field for named tuples, None-for-NaN allowed). Equal terms '
             'are equal values for arrays of ANY length because every operation is a deterministic function of its arguments. 148 of '
             '168 wrappers are proved this way; a wrapper that is not (different formulas in the two modes, loops in the wrapper) is listed '
-            'as not under contract for this layer. Bounded layer (detection, witnesses), labelled as such: every public indicator with a `sequential` parameter whose code stays inside the engine\'s '
+            'as not under contract for this layer. Second unbounded layer (length.<name>): every series returned with sequential=True has '
+            'exactly one entry per input candle for EVERY input length - array lengths are exact symbolic terms in the abstract execution of the '
+            'real wrapper and kernels (pyvc/causal.py, lengths only), len == n discharged by z3 (137 of 168 wrappers). Bounded native layer '
+            '(boundary.<name>) for every indicator: both modes on the real code around the warm-up window and around the period, on random, '
+            'trending, tied, zero-volume and halted-market series, recursive averages selected, non-default period parity / price source, '
+            'after calls with other parameter values in the same process. Bounded layer (detection, witnesses), labelled as such: every public indicator with a `sequential` parameter whose code stays inside the engine\'s '
             'subset is executed symbolically (candle arrays of concrete length, all values symbolic) in sequential and non-sequential '
             'mode, at the warm-up window length and above it (window configured to 32). Proved per field: one entry per input candle; '
             'last sequential entry == non-sequential result; non-sequential result on the long input == last entry of the sequential '
